@@ -974,6 +974,21 @@ class Interp:
         return v
 
     def e_Call(self, node, fr):
+        fn_ = node.func
+        if isinstance(fn_, ast.Attribute) and isinstance(fn_.value, ast.Call) and isinstance(fn_.value.func, ast.Name) \
+                and fn_.value.func.id == "super" and not fn_.value.args:
+            # super().method(...): the method of the next class after the one this function is defined in, on the same object
+            defcls = self.prog.enclosing_class(fr.fn)
+            me = fr.env.get("self", fr.env.get("cls"))
+            if defcls is not None and isinstance(me, Obj):
+                for c_ in self.prog.mro(defcls)[1:]:
+                    q_ = f"{c_}.{fn_.attr}"
+                    if self.prog.has(q_):
+                        m_, n_ = self.prog.lookup(q_)
+                        args_ = [self.eval(a, fr) for a in node.args]
+                        kw_ = {k.arg: self.eval(k.value, fr) for k in node.keywords if k.arg is not None}
+                        return self.call_func(Func(q_, m_, n_, bound=me), args_, kw_, node)
+                return K(None)  # object.__init__ and the like
         f = self.eval(node.func, fr)
         args = []
         for a in node.args:
